@@ -109,7 +109,7 @@ CLAIMS = {
          "(gen/GenCascades.v) and proved equal to the cascade models result by result at every sufficient fuel (Proofs/CascadesP*.v, "
          "C05_src_*hash_many*); the whole hash4 / hash8 of the three Rust intrinsics files and blake3_hash4/8/16_avx512 (key broadcast, block loop, "
          "counters, final transpose, stores) are TRANSLATED (gen/GenKern2.v) and proved equal to the N-way kernel models and to portable hash1 of "
-         "each input (C05_src_*hashN*); blake3_hash4_sse2/_sse41, blake3_hash8_avx2 and the AVX-512 xof kernels are translated but not yet proved. Correspondence at kernel level for EVERY executable flavour (Rust asm/intrinsics/pure builds, C "
+         "each input (C05_src_*hashN*), blake3_hash4_sse2/_sse41 and blake3_hash8_avx2 likewise to hash4_c / hash8_c; the AVX-512 xof kernels are translated but not yet proved. Correspondence at kernel level for EVERY executable flavour (Rust asm/intrinsics/pure builds, C "
          "intrinsics, Unix assembly, Windows-GNU assembly via ms_abi) against the extracted portable model: block_len 0..64, "
          "flags 0..255, counters around 2^32/2^63/2^64, num_inputs 0..2*degree+1, alignments, xof 1..35 blocks.",
          "Partial: the assembly and intrinsics CODE is not modelled instruction by instruction (no ISA semantics installed): "
